@@ -125,3 +125,17 @@ Proof.
     rewrite A1 in B1. rewrite <- Zle_Qle in B1. lia.
   - congruence.
 Qed.
+
+(* the same for rows (counted from the top) *)
+Theorem row_unique r y l l' :
+  (0 <= l < nrow r)%Z -> (0 <= l' < nrow r)%Z -> in_row r l y -> in_row r l' y -> l = l'.
+Proof.
+  intros Hl Hl' [[A1 A2]|[A1 A2]] [[B1 B2]|[B1 B2]].
+  - assert (L1 : inject_Z (nrow r - 1 - l) < inject_Z (nrow r - 1 - l') + 1) by lra.
+    assert (L2 : inject_Z (nrow r - 1 - l') < inject_Z (nrow r - 1 - l) + 1) by lra.
+    change 1 with (inject_Z 1) in L1, L2. rewrite <- inject_Z_plus, <- Zlt_Qlt in L1, L2. lia.
+  - subst l'. rewrite B1 in A2. change 1 with (inject_Z 1) in A2. rewrite <- inject_Z_plus, <- Zlt_Qlt in A2. lia.
+  - subst l. rewrite A1 in B2. change 1 with (inject_Z 1) in B2. rewrite <- inject_Z_plus, <- Zlt_Qlt in B2. lia.
+  - congruence.
+Qed.
+Print Assumptions row_unique.
